@@ -187,13 +187,69 @@ func (s *Sched) Run(main func()) {
 	select {
 	case <-s.endCh:
 	case <-time.After(StallTimeout):
+		// Either a thread of the code under test is spinning without ever reaching a
+		// synchronisation point (a verdict: it will never let go of what it holds), or
 		// some thread is blocked outside the scheduler (an uninstrumented blocking
-		// operation in the code under test): nothing can be concluded, and the
-		// goroutine cannot be recovered - give the whole worker process up
+		// operation: nothing can be concluded). The goroutine cannot be recovered
+		// either way - the whole worker process is given up.
+		if OnStall != nil {
+			if where := spinningInCodeUnderTest(s); where != "" {
+				OnStall(s, where) // does not return if it takes the verdict
+			}
+		}
 		fmt.Fprintf(os.Stderr, "ENGINE-ERROR: execution stalled for %v at step %d: a thread is blocked outside the scheduler (uninstrumented blocking operation?)\n", StallTimeout, s.Steps)
 		os.Exit(3)
 	}
 	s.ended = true
+}
+
+// OnStall is told when an execution stalled because a goroutine is busy inside
+// the code under test (where = its top frames there).
+var OnStall func(s *Sched, where string)
+
+// spinningInCodeUnderTest looks at the goroutine dump twice, two seconds apart:
+// a goroutine that is running or runnable both times inside the generated
+// packages while the step counter stands still is spinning.
+func spinningInCodeUnderTest(s *Sched) string {
+	look := func() (string, int) {
+		buf := make([]byte, 4<<20)
+		n := runtime.Stack(buf, true)
+		for _, g := range strings.Split(string(buf[:n]), "\n\n") {
+			head := g
+			if i := strings.Index(g, "\n"); i >= 0 {
+				head = g[:i]
+			}
+			if !strings.Contains(head, "[running]") && !strings.Contains(head, "[runnable]") {
+				continue
+			}
+			var frames []string
+			for _, l := range strings.Split(g, "\n") {
+				if strings.HasPrefix(l, "verif/gen/") {
+					if i := strings.Index(l, "("); i > 0 {
+						l = l[:i]
+					}
+					frames = append(frames, strings.TrimPrefix(l, "verif/gen/"))
+				}
+			}
+			if len(frames) > 0 {
+				if len(frames) > 3 {
+					frames = frames[:3]
+				}
+				return strings.Join(frames, " < "), s.Steps
+			}
+		}
+		return "", s.Steps
+	}
+	w1, n1 := look()
+	if w1 == "" {
+		return ""
+	}
+	time.Sleep(2 * time.Second)
+	w2, n2 := look()
+	if w2 == "" || n1 != n2 {
+		return ""
+	}
+	return w2
 }
 
 // StallTimeout bounds one execution in wall-clock time; it is a liveness guard
